@@ -154,7 +154,7 @@ def trace_part(chk, S, n_examples):
 
     @st.composite
     def case(draw):
-        kind = draw(st.sampled_from(['tied', 'tied', 'continuous', 'clustered', 'sample', 'near-edge']))
+        kind = draw(st.sampled_from(['tied', 'tied', 'continuous', 'clustered', 'sample', 'near-edge', 'huge-axis']))
         N = draw(st.integers(2, 120))
         seed = draw(st.integers(0, 10 ** 6))
         kx = draw(st.sampled_from([1, 2, 2, 3, 4, 5, 6, 8, 10]))
@@ -180,6 +180,11 @@ def trace_part(chk, S, n_examples):
         elif c['kind'] == 'near-edge':
             # large integer values; some events one or two units above the last edge (relative distance ~1e-5)
             pts = np.stack([rnd.randint(99960, 100003, size=N), rnd.randint(199950, 200003, size=N)], axis=1).astype(float)
+        elif c['kind'] == 'huge-axis':
+            # one axis cut into 40,000 bins (legal, if unusual): events spread over the whole axis, most of them far out
+            pts = np.stack([np.where(rnd.uniform(size=N) < 0.6, rnd.uniform(820, 1000, size=N), rnd.uniform(0, 1000, size=N)),
+                            rnd.uniform(0, 1, size=N)], axis=1)
+            pts[: N // 3, 0] = np.round(pts[: N // 3, 0], 0) + 0.0125      # several events share a bin
         elif c['kind'] == 'clustered':
             pts = np.concatenate([rnd.normal(3, 0.7, size=(N // 2, 2)), rnd.normal(8, 1.5, size=(N - N // 2, 2))])
         else:
@@ -211,6 +216,9 @@ def trace_part(chk, S, n_examples):
                 ye = np.linspace(1, 11, ky + 1)
             # (a 2-element edge array would be read as a per-axis specification: only for kx >= 2)
             bins = {'count': kx, 'edges': [xe, ye], 'mixture': [kx, ye], 'same-edges': xe if kx >= 2 else [xe, ye]}[c['binspec']]
+            if c['kind'] == 'huge-axis':
+                xe, ye = np.linspace(0, 1000, 40001), np.array([0.0, 0.5, 1.0])
+                bins = [xe, ye] if c['binspec'] in ('edges', 'same-edges') else [40000, ye]
             kw = {}
         fn, fd = c['f']
         above = 1 if (c['above'] and fn < fd) else 0
@@ -249,8 +257,24 @@ def trace_part(chk, S, n_examples):
                          'mask2': [True] * N})
             metas.append(dict(c, note='follow-up call raised ' + type(e).__name__))
             return
+        ranks, binmask = ranks_of(codes, kx2, ky2, c['sigma']), np.asarray(out.bin_mask).tolist()
+        if kx2 > 64:
+            # a grid too large to hand to TLC bin by bin: judged on the sub-grid of the x-bins that hold events (every
+            # clause of the specification on a sub-grid follows from the same clause on the grid; the event masks are whole)
+            I = sorted({bin_of(cx, kx2) for cx, cy in codes if bin_of(cx, kx2) >= 0}) or [0]
+            pos = {b: i for i, b in enumerate(I)}
+
+            def sub_code(cx):
+                if cx < 0:
+                    return -1
+                if cx > 2 * kx2:
+                    return 2 * len(I) + 1
+                i = pos[bin_of(cx, kx2)]
+                return 2 * len(I) if (cx == 2 * kx2 and i == len(I) - 1) else 2 * i + (0 if (cx % 2 == 0 and cx != 2 * kx2) else 1)
+            codes = [[sub_code(cx), cy] for cx, cy in codes]
+            ranks, binmask, kx2 = [ranks[b] for b in I], [binmask[b] for b in I], len(I)
         recs.append({'k': 'ok', 'kx': kx2, 'ky': ky2, 'codes': codes, 'fn': fn, 'fd': fd, 'above': above, 'nch': 2,
-                     'ranks': ranks_of(codes, kx2, ky2, c['sigma']), 'binmask': np.asarray(out.bin_mask).tolist(),
+                     'ranks': ranks, 'binmask': binmask,
                      'mask': np.asarray(out.mask).tolist(), 'replay': np.asarray(rep.mask).tolist(),
                      'perm': np.asarray(pout.mask)[inv].tolist(), 'mask2': np.asarray(out2.mask).tolist()})
         metas.append(c)
